@@ -202,6 +202,43 @@ func (f *Filter) String(prefix string) (str string) {
 	return str
 }
 
+// clone returns a deep copy of this filter.
+func (f *Filter) clone() *Filter {
+	return &Filter{
+		regexp:         f.regexp,
+		column:         f.column,
+		stringVal:      f.stringVal,
+		customTag:      f.customTag,
+		filter:         cloneFilterList(f.filter),
+		int64Value:     f.int64Value,
+		floatValue:     f.floatValue,
+		stats:          f.stats,
+		statsCount:     f.statsCount,
+		statsPos:       f.statsPos,
+		columnIndex:    f.columnIndex,
+		columnOptional: f.columnOptional,
+		intValue:       f.intValue,
+		isEmpty:        f.isEmpty,
+		negate:         f.negate,
+		groupOperator:  f.groupOperator,
+		operator:       f.operator,
+		statsType:      f.statsType,
+	}
+}
+
+// cloneFilterList returns a deep copy of a list of filters.
+func cloneFilterList(list []*Filter) []*Filter {
+	if list == nil {
+		return nil
+	}
+	res := make([]*Filter, 0, len(list))
+	for _, f := range list {
+		res = append(res, f.clone())
+	}
+
+	return res
+}
+
 // Equals returns true if both filter are exactly identical.
 func (f *Filter) Equals(other *Filter) bool {
 	if f.column != other.column {
